@@ -16,7 +16,7 @@ func init() {
 	register(&Property{ID: "C01", Technique: "decision-tree extraction (abstract interpretation) of the accept gate and the serve/glue functions; at-most-one-write path counting with interprocedural may-write summaries; defer-recover dominance",
 		Run: runC01, Explain: an.Explanation{
 			Text: "R1: the decision tree of ServerBase.acceptMsg equals the documented table (response -> ignore; opcode " +
-				"other than QUERY/NOTIFY -> NOTIMP; question count != 1, more than one answer or authority record -> FORMERR; " +
+				"other than QUERY/NOTIFY -> NOTIMP; question count != 1, more than one answer, authority or OPT record -> FORMERR; " +
 				"else accept, in that priority). R2: serveDNSMsgInternal calls the handler only on the accept edge with this " +
 				"request and writer, answers FORMERR / NOTIMP built from this request on the reject edges, writes nothing on " +
 				"the ignore edge, and answers SERVFAIL built from this request when the handler fails. R3: in every function " +
@@ -314,6 +314,8 @@ func runC01(c *an.Ctx) {
 			"len(p1.Question)":   an.Ints(0, 1, 2),
 			"len(p1.Answer)":     an.Ints(0, 1, 2),
 			"len(p1.Ns)":         an.Ints(0, 1, 2),
+			// more than one OPT record (RFC 6891, 6.1.1: FORMERR); the helper that counts them is decided on its own (C05-R14)
+			"dnsserver.hasMultipleOPT(p1)": an.Bools,
 		},
 		Expect: func(f an.Features, o an.AOutcome) string {
 			var want int64
@@ -322,7 +324,7 @@ func runC01(c *an.Ctx) {
 				want = ignore
 			case f.I("p1.MsgHdr.Opcode") != opQuery && f.I("p1.MsgHdr.Opcode") != opNotify:
 				want = notimp
-			case f.I("len(p1.Question)") != 1, f.I("len(p1.Answer)") > 1, f.I("len(p1.Ns)") > 1:
+			case f.I("len(p1.Question)") != 1, f.I("len(p1.Answer)") > 1, f.I("len(p1.Ns)") > 1, f.B("dnsserver.hasMultipleOPT(p1)"):
 				want = reject
 			default:
 				want = accept
